@@ -27,7 +27,7 @@ static void on_hello(dw_iface *d) {
         int valid = 0; for (int i = 0; i < SESSION_TABLE_MAX_ENTRIES; i++) valid += d->sessionTable->entries[i].valid;
         vf_violation(valid ? "hello:sent-with-all-sessions-complete" : "hello:sent-with-empty-session-table", "periodic Hello at t=%llu ms although the session table holds %d sessions, none of them incomplete", (unsigned long long)W.now_ms, valid);
     }
-    if (!is_flow && !rm_incomplete()) {
+    if (!rm_incomplete()) {
         int pres = 0; for (int k = 0; k < 4; k++) pres += RM.present[k];
         vf_violation(pres ? "hello:sent-with-all-sessions-complete(model)" : "hello:sent-with-empty-session-table(model)", "periodic Hello at t=%llu ms: by the operations performed so far the table holds %d sessions, none of them incomplete (the table's own slots say otherwise)", (unsigned long long)W.now_ms, pres);
     }
@@ -71,24 +71,36 @@ static void ev_name(int i, char *b, size_t cap) {
     }
 }
 
+static void rm_tick(void) {        /* what a tick does to the sessions, by the statement: 30 s without traffic drops them all, 60 s idle expires one */
+    mapping_state *ms = D.mappingAutomata->extra; uint64_t ns = W.now_ms / 1000;
+    if (ms->inactive_timeout_ts != 0 && ns >= ms->inactive_timeout_ts) memset(&RM, 0, sizeof RM);
+    for (int k = 0; k < 4; k++) if (RM.present[k] && ns > RM.last_s[k] + 60) RM.present[k] = 0;
+}
 static void frame(uint8_t opcode, int m2, int ack, int gen2) {
     static uint8_t buf[1600]; memset(buf, 0, 128);
     const uint8_t *src = vf_station[m2 ? ST_M2 : ST_M1];
     fb_base(buf, vf_station[ST_BC], src, 0, opcode, vf_station[ST_BC], src, 1);
     if (opcode == 0x00) { buf[32] = 0; buf[33] = (uint8_t)(gen2 ? 2 : 1); buf[34] = 0; buf[35] = 1; memcpy(buf + 36, ack ? W.iface[0].mac : vf_station[ST_PEER], 6); }
     MON.last_frame_ms = W.now_ms; MON.frame_any = 1;
+    /* the frame-processing flow up to (not including) its closing tick, then the reference dictionary, then the tick */
+    uint8_t prev = D.mappingAutomata->current_state;
+    D.defer_tick = 1;
     dw_frame(&D, buf, opcode == 0x00 ? 42 : 32);
+    if (opcode == 0x00) {
+        int k = gen2 ? 2 : (m2 ? 1 : 0);
+        if (!RM.present[k]) { RM.present[k] = 1; RM.complete[k] = 0; }
+        RM.last_s[k] = W.now_ms / 1000; if (ack) RM.complete[k] = 1;
+    } else if (opcode == 0x08) memset(&RM, 0, sizeof RM);
+    if (prev != 0 && D.mappingAutomata->current_state == 0) memset(&RM, 0, sizeof RM);      /* mapping session ended: sessions dropped (darwin-main.c:349) */
+    rm_tick();
+    dw_tick(&D);
 }
 
 static void apply(int i) {
     evd e = EV[i];
     band_state *band = D.enumerationAutomata->extra; mapping_state *ms = D.mappingAutomata->extra;
     switch (e.kind) {
-        case K_TICK: {
-            uint64_t ns = W.now_ms / 1000;
-            if (ms->inactive_timeout_ts != 0 && ns >= ms->inactive_timeout_ts) memset(&RM, 0, sizeof RM);      /* 30 s without traffic: sessions dropped */
-            for (int k = 0; k < 4; k++) if (RM.present[k] && ns > RM.last_s[k] + 60) RM.present[k] = 0;          /* stale-session expiry */
-            dw_tick(&D); break; }
+        case K_TICK: rm_tick(); dw_tick(&D); break;
         case K_ADV: W.now_ms += (uint64_t)e.arg; break;
         case K_ADD: case K_REFRESH2:
             session_table_add(D.sessionTable, KMAC[e.arg], KGEN[e.arg], e.kind == K_ADD ? 1 : 2);
